@@ -211,6 +211,8 @@ def contracts(repo):
     # payload and the CPF list with its null address item and one data item - the producer contracts of C01
     from . import C01 as _C01
     items += [_C01.enip_encode_spec()] + [s for s in _C01.encapsulation_specs() if s.name.startswith(('send_data', 'register'))] + _C01.cpf_specs()
+    from . import C02 as _C02
+    items.append(_C02.recv_spec())             # every request delivered is seen: one read of the socket per readable event, nothing dropped or waited for
     from . import C15
     items += C15.contracts(repo)          # an unroutable request is refused before any dispatch, with a non-zero status
     from . import C05
